@@ -1,4 +1,5 @@
 """C05 — a run always terminates, stops triggering on time, and leaves nothing running."""
+import re
 ID = "C05"
 PROPS = ["F1Verif.Props.C05", "F1Verif.Props.C05Time", "F1Verif.Props.FactsC05"]
 ALSO = ["F1Verif.Props.C18", "F1Verif.Props.Pool"]
@@ -24,6 +25,9 @@ def corpus():
         "run prop=C05 mode=file dur=9000 conc=3 maxit=3 file=c:300:5/100ms;c:4000:1/1s;z:3000 body=5 retmax=2500",   # D16
         "run prop=C05 mode=file dur=9000 conc=4 file=u:300:3;c:400:4/100ms body=250 retmin=650",                # users stage first: the final wait must still wait
         "run prop=C05 mode=constant rate=2/100ms dur=1500 conc=8 body=600 timeout=1000 retmin=1900",           # run longer than the completion timeout
+        "run prop=C05 mode=users dur=300 conc=2 block=2 timeout=300 retmax=2500",          # D21: users mode and an iteration that never returns
+        "run prop=C05 mode=users dur=400 conc=3 block=1 timeout=500 retmax=2900",
+        "run prop=C05 mode=file dur=2000 conc=2 file=u:300:2 block=2 timeout=300",         # the same in a users *stage* of a config file: known finding
         "run prop=C05 mode=constant rate=5/100ms dur=10 conc=4 body=1",
         "run prop=C05 mode=staged stages=0s:3,300ms:3 freq=100 dist=none dur=5000 conc=4 body=10 retmax=3500",
         "run prop=C05 mode=constant rate=3/100ms dur=900 conc=3 body=20 cancel=250",
@@ -49,8 +53,11 @@ def generate(rng, tier):
         dur = rng.choice([300, 500, 800])
         conc = rng.choice([1, 3, 8])
         body = rng.choice([0, 5, 40, 150])
-        end = rng.choice(["dur", "dur", "limit", "cancel", "setupfail"])
+        end = rng.choice(["dur", "dur", "limit", "cancel", "setupfail", "blocked"])
         extra = ""
+        if end == "blocked":        # an iteration that never returns: the completion timeout ends the wait, in every mode
+            extra = " block=%d timeout=%d" % (rng.randint(1, 3), rng.choice([200, 400]))
+            body = rng.choice([0, 5])
         if end == "limit":
             extra = " maxit=%d" % rng.randint(1, 12)
         elif end == "cancel":
@@ -109,3 +116,12 @@ MANIFEST = {
  "text": "End-of-run lock protocol (controller program as data, Result's RWMutex with writer preference and nested read paths, the progress function's lock/rlock/rlock, Stop = cancel + wait): for every controller program obeying the locking discipline — f1's is checked by the kernel (C05_doTail_disciplined) — every reachable state in which the controller still has work lets some thread move without waiting for a timer (C05_no_deadlock; inductive invariant Inv, omega over Bool codes), every such move decreases a measure (C05_measure), and once the controller is past Stop the runner is gone for good (C05_runner_gone). The pool cannot strand sleepers at shutdown and is empty when terminated (C05_sleepers_woken, C05_pool_clean; from C02/C04's invariants), the runner is quiescent after Stop (C18). The pinned tree's wedge is a kernel-checked deadlock state (legacy_deadlock) replayed on the real Do through the hooks. Time: the two selects of Run.run as a timed model (Deadline) — triggering stops exactly at the earliest of max-duration less 10 ms, the trigger's own duration less 10 ms, cancellation and the limit (C05_deadline, C05_stop_le, C05_stop_earliest, C05_some_branch_fires), the wait is bounded by the completion timeout (C05_wait_bounded), a return that did not give up means everything in flight finished (C05_finished_unless_timeout) and giving up happens only after the full timeout (C05_gives_up_after_full_timeout). Tie: whole runs over modes x endings with goroutine diff and return-time bounds computed from the Deadline model; result.stress for the pre-Stop lock users.",
  "note": "Partial by nature: real timers, the scheduler's fairness and goroutine exit are assumed and monitored on real runs (exploration in support); the deadline clause is proved on the timed model of the two selects (environment inputs: cancel instant, limit instant, drain function) and tied by stall-robust time bounds on real runs (150 ms / 1 s margins), so a shift of a few ms in the real code is only caught by the 10 ms-run case and the regenerated source of run().",
  "technique": "Lean 4 deadlock-freedom by inductive invariant + termination measure over a lock-protocol model; whole-run monitoring with scripted interleavings"}
+
+
+def signature(rec):
+    """known finding D21b: a users stage of a config file whose iteration never returns keeps the run from returning"""
+    c = rec["case"]
+    if c.startswith("run ") and " mode=file " in c and " block=" in c and re.search(r" file=(\S*;)?u:", c) \
+            and rec.get("impl", "").startswith("never-returned"):
+        return "C05:file-users-stage:blocked-iteration"
+    return c
